@@ -44,14 +44,15 @@ func newEvidence(prop, tier string, seed uint64, info *prepInfo) *evidence {
 	e.Coverage["interposed_files"] = info.Rewritten
 	e.Coverage["unmodelled_constructs"] = info.Warnings
 	e.Coverage["components"] = map[string]string{
-		"mimetype, internal/magic, internal/json, internal/charset, golang.org/x/net/html, encoding/csv, encoding/xml, mime": "real code (three import paths redirected on a scratch copy)",
-		"sync.RWMutex, sync.Mutex, sync/atomic":   "real primitive, gated by the simulator's lock model / preceded by a scheduling point",
-		"sync.Pool":                               "stub: nondeterministic-choice model (Get returns New() or any released object, by recorded choice)",
-		"os.Open / *os.File":                      "stub for sim:/ paths (fault-injecting delivery engine); real kernel for the temp-file subset",
-		"io.Reader":                               "harness implementation of the public interface (delivery schedule + injected fault)",
-		"goroutine scheduler":                     "replaced by the seeded baton scheduler (one task runs between two decisions)",
-		"race detector":                           "real ThreadSanitizer runtime; baton hand-offs hidden with runtime.RaceDisable/Enable",
-		"clock, timers, network, durable storage": "absent from the library; not simulated",
+		"mimetype, internal/magic, internal/json, internal/charset, golang.org/x/net/html, encoding/csv, encoding/xml, mime": "real code (four import paths redirected on a scratch copy)",
+		"sync.RWMutex, sync.Mutex, sync/atomic": "real primitive, gated by the simulator's lock model / preceded by a scheduling point",
+		"sync.Pool":                             "stub: nondeterministic-choice model (Get returns New() or any released object, by recorded choice)",
+		"os.Open / *os.File":                    "stub for sim:/ paths (fault-injecting delivery engine); real kernel for the temp-file subset",
+		"io.Reader":                             "harness implementation of the public interface (delivery schedule + injected fault)",
+		"goroutine scheduler":                   "replaced by the seeded baton scheduler (one task runs between two decisions)",
+		"race detector":                         "real ThreadSanitizer runtime; baton hand-offs hidden with runtime.RaceDisable/Enable",
+		"time.Now / Since / Until / Sleep":      "stub: simulated wall clock that moves only when a plan says so (forwards and backwards); the library itself reads no clock, a change that does is subject to it",
+		"timers, network, durable storage":      "absent from the library; not simulated",
 	}
 	e.Assumptions = []string{
 		"seeded search samples schedules, histories and delivery schedules; a clean batch is evidence, not proof",
